@@ -54,21 +54,26 @@ Proof.
   intros H Hnd Hadd (g0 & Hg0 & Hg0a). unfold lazy_marking in H.
   assert (Htriv : names = [] -> exists g, In g gs /\ g_add g <> [] /\ smem (g_name g) names = false).
   { intros ->. exists g0. split; [exact Hg0|]. split; [apply Hadd; assumption|reflexivity]. }
-  destruct (length gs <=? 1)%nat; [inversion H; auto|].
-  destruct (existsb (fun g => negb (is_nil (g_add g)) && (g_existent idx g =? 0)) gs); [discriminate|].
+  revert H.
+  destruct (length gs <=? 1)%nat; [intro H; inversion H; subst; apply Htriv; reflexivity|].
+  destruct (existsb _ gs); [intro H; discriminate H|].
+  intro H.
   set (trip := map (fun g => (g, g_card idx g, g_existent idx g)) gs) in *.
   set (sorted := cg_sort trip) in *.
   destruct (span_all sorted) as [negs rest] eqn:Es.
   destruct (span_all_spec _ _ _ Es) as (Eapp & Hhead).
-  destruct rest as [|[[g c] e] [|x2 r2]]; try (inversion H; auto; fail).
-  inversion H as [Hn]. clear H.
+  destruct rest as [|[[g c] e] tail]; [inversion H; subst; apply Htriv; reflexivity|].
+  assert (Hn : exists sm, names = lazy_loop sz mn md kn kd sm sm tail \/ names = []).
+  { destruct tail as [|x2 r2]; [exists 0; right; inversion H; reflexivity|].
+    eexists. left. injection H as Hn. symmetry. exact Hn. }
+  destruct Hn as (sm0 & [Hn|Hn]); [|apply Htriv; exact Hn]. clear H.
   assert (Hperm : Permutation sorted trip) by apply cg_sort_perm.
   assert (Hin : In (g, c, e) sorted) by (rewrite Eapp; apply in_or_app; right; left; reflexivity).
   assert (Hg : In g gs).
   { apply (Permutation_in _ Hperm) in Hin. unfold trip in Hin. apply in_map_iff in Hin.
     destruct Hin as (g' & Hg' & Hin). inversion Hg'; subst. exact Hin. }
   exists g. split; [exact Hg|]. split; [apply Hadd; [exact Hg|exact Hhead]|].
-  apply smem_false_notin. intro Hbad. apply lazy_loop_sub in Hbad.
+  apply smem_false_notin. intro Hbad. rewrite Hn in Hbad. apply lazy_loop_sub in Hbad.
   (* names of the sorted list have no duplicates *)
   assert (Hnames : map cg_name trip = map g_name gs).
   { unfold trip. rewrite map_map. reflexivity. }
@@ -117,8 +122,8 @@ Proof.
     fold (name_filter ms n) in H.
     destruct (merge_name (label_values idx n) (name_filter ms n) None) as [[g|]|]; [| |discriminate].
     + destruct Hm as ((_ & _ & W3) & _).
-      destruct (groups_for idx ms names) as [gs'|] eqn:Eg; [|discriminate]. inversion H; subst.
-      simpl. rewrite W3. f_equal. apply IH; [intros n0 H0; apply Hn; right; exact H0|reflexivity].
+      destruct (groups_for idx ms names) as [gs'|] eqn:Eg; [|discriminate]. inversion H; subst gs. rewrite <- W3.
+      simpl. f_equal. apply IH; [intros n0 H0; apply Hn; right; exact H0|reflexivity].
     + exfalso. destruct Hm as (_ & _ & Hx). destruct (Hx eq_refl) as [H1 _].
       destruct (Hn n (or_introl eq_refl)) as (m & Hm1 & Hm2).
       assert (In m (name_filter ms n)) by (apply filter_In; split; [exact Hm1|apply str_eqb_eq; exact Hm2]).
@@ -130,7 +135,7 @@ Proof.
   intros Hc E. unfold matchers_to_groups in E. set (ms' := dedup_matchers ms) in *.
   assert (Hc' : Forall coherent ms').
   { apply Forall_forall. intros m Hm. rewrite Forall_forall in Hc. apply Hc. apply dedup_sub. exact Hm. }
-  rewrite (groups_for_names idx ms' Hc' _ gs) ; [| |exact E].
+  rewrite (groups_for_names idx ms' Hc' (ssort (names_of ms' [])) gs); [| |exact E].
   - apply ssort_nodup. apply names_of_nodup.
   - intros n Hn. rewrite ssort_in in Hn. exact (names_of_sub ms' [] n Hn).
 Qed.
